@@ -1,9 +1,13 @@
 import MJ.Model.Path
+import MJ.Model.PathPlat
 /-!
 Line driver for C17.  Input: harness lines `case<TAB>…` (only the case is read).  Cases
 
 * `sj <base> <name>`   → `none` | `some <path> <flags> <comps> <normalized comps>`
 * `push <path> <seg>`  → `<path>`
+* `wsj <base> <name>`  → the WINDOWS instance of the platform-generic model (`MJ/Model/PathPlat.lean`):
+  `none` | `some <path> <drive length><R|r> <comps> <pushed arguments>`
+* `wpush <path> <seg>` → `<path>` (`pushP windows`)
 * `comps <path>`       → `<flags> <comps> <normalized comps>`
 * `hist <base> <name>,<path>,<disk> …` → the answers of `Env.run` over that history (`nf`, `e`,
   `f:<content>`), then ` | ` and the store afterwards.  Each step's snapshot holds `<disk>`
@@ -69,6 +73,19 @@ def handle (line : String) : String :=
   | ["push", p, s] =>
     match dec p, dec s with
     | some p, some s => enc (push p s)
+    | _, _ => "bad-case"
+  | ["wsj", b, n] =>
+    match dec b, dec n with
+    | some b, some n =>
+      match MJ.PathPlat.safeJoinTr MJ.PathPlat.windows b n with
+      | none => "none"
+      | some (p, tr) =>
+        let w := MJ.PathPlat.windows
+        s!"some {enc p} {MJ.PathPlat.driveLen w p}{if MJ.PathPlat.hasRoot w p then "R" else "r"} {encList (MJ.PathPlat.compsP w p)} {encList tr.pushed}"
+    | _, _ => "bad-case"
+  | ["wpush", p, s] =>
+    match dec p, dec s with
+    | some p, some s => enc (MJ.PathPlat.pushP MJ.PathPlat.windows p s)
     | _, _ => "bad-case"
   | ["comps", p] =>
     match dec p with
